@@ -189,9 +189,24 @@ MISSED = {
     "C20-13": "contexts were always created where they were entered; nestings now create their context objects up front",
     "C20-14": "Op.is_close pairs were symmetric with respect to the relative tolerance; added pairs between rtol*|a| and rtol*|b|",
     "C20-15": "contexts were opened on the library-wide settings only; added another Settings object",
+    # ---- sixth round (ids 16..17) ----
+    "C01-16": "caught by C07 at once; C01 had no conclusion with two different hedges; added `not very` / `seldom not` conclusions to space E",
+    "C03-16": "no zero-width Concave (inflection == end); added - which exposed a defect above the end (repaired in /repo, 263ff0c)",
+    "C04-16": "no all-zero / constant operand of another shape than the first; added scalar x constant array, column x constant row",
+    "C04-17": "one-element arrays were given to hedges (C05) but not to norms; added shapes (1,) and (1,1)",
+    "C05-16": "no empty array; added shapes (0,), (0,3), (2,0)",
+    "C06-16": "the disabled variable in antecedents was an input; added a disabled OUTPUT variable whose fuzzy output still holds activations",
+    "C08-16": "caught by C06 at once (rule weights 0.9995 / 1.0005); C08 drives the activation methods with given degrees and weight 1",
+    "C09-16": "every Activated object occurred once per set; added the same object listed twice (against two equal objects)",
+    "C10-16": "no subnormal total weight; added 2^-1030 for the Takagi-Sugeno group",
+    "C14-16": "no engine without components; added every prefix of each base engine's component sequence (name only, + description, + inputs ...)",
+    "C15-16": "no description made of white space; added ' ', '\\t ', '  two  ' for input / output variables and rule blocks",
+    "C15-17": "counts were >= 1 and given to the constructor of the original too; added count 0, and the original's activation parameters are now assigned",
+    "C16-16": "caught by C17 at once (`( x`); C16's FLL documents had no parenthesised Function formula; added, with every single parenthesis deleted",
+    "C17-16": "min / max were only evaluated on finite operands; added all pairs over a lattice with NaN, infinities and signed zeros",
 }
 # changes that belong to another property's mechanism: the check that catches them
-EXTRA = {"C05-5": ["C20"], "C18-12": ["C20"], "C06-14": ["C08"], "C06-15": ["C08"], "C10-15": ["C04"], "C15-15": ["C20"]}
+EXTRA = {"C05-5": ["C20"], "C18-12": ["C20"], "C06-14": ["C08"], "C06-15": ["C08"], "C10-15": ["C04"], "C15-15": ["C20"], "C08-16": ["C06"]}
 results = []
 for d in sorted(os.listdir(SRC)):
     m = re.match(r"out_(C\d+)$", d)
